@@ -48,7 +48,7 @@ def specs_for(ctx, fam):
     quick = ctx.quick()
     # --split-internal: items are registered twice (namespace packages' metamini.go and package meta); the driver links both
     split = ("cases_split", [TLS / "cases.tl"], ["--tl2WhiteList=*", "--split-internal"], "*", True)
-    return repo_corpus(quick) + [annotation_unit(ctx), split] + rand_specs(ctx, 3 if quick else 24, prefix="rg", verifdump=fam.bins.get("verifdump"))
+    return repo_corpus(quick) + [annotation_unit(ctx), split] + rand_specs(ctx, 3 if quick else 9, prefix="rg", verifdump=fam.bins.get("verifdump"))
 
 
 def le32(tag):
@@ -58,7 +58,7 @@ def le32(tag):
 def run(ctx):
     fam = Family(ctx, PROPS, "corr:C17:meta")
     fam.prepare(specs_for(ctx, fam))
-    nvals = 4 if ctx.quick() else 25
+    nvals = 4 if ctx.quick() else 12
     skipped = {}
 
     def work(u, rng):
